@@ -89,6 +89,7 @@ func init() {
 		symPkg + ".Concretize":     symConcretize,
 		symPkg + ".Yield":          func(fr *frame, args []value) value { fr.i.yield(fr); return nil },
 		symPkg + ".Clock":          symClock,
+		symPkg + ".Instant":        symInstant,
 		symPkg + ".Fail":           symFail,
 		symPkg + ".Thorough":       func(fr *frame, args []value) value { return fr.i.cfg.Tier == "thorough" },
 		symPkg + ".Bound":          symBound,
@@ -989,6 +990,16 @@ func symClock(fr *frame, args []value) value {
 	}
 	in.assume(in.ts.And(in.ts.Bin(term.OpULe, lo, v), in.ts.Bin(term.OpULe, v, in.ts.Const(64, 64900000000))))
 	in.clockLast = v
+	return in.mkTime(v)
+}
+
+// symInstant: an arbitrary instant in the clock's range, unrelated to the
+// clock readings.
+func symInstant(fr *frame, args []value) value {
+	in := fr.i
+	name := goStr(args[0])
+	v := in.freshVar(name, 64, name)
+	in.assume(in.ts.And(in.ts.Bin(term.OpULe, in.ts.Const(64, 63900000000), v), in.ts.Bin(term.OpULe, v, in.ts.Const(64, 64900000000))))
 	return in.mkTime(v)
 }
 
